@@ -3,6 +3,9 @@
 cd "$(dirname "$0")/.." || exit 2
 for p in ${PROPS:-C03 C10 C12 C15 C17 C18 C16 C11 C09 C14 C05 C04 C06 C07 C08 C19 C13 C20 C02 C01}; do
   echo "=== $p thorough seed=${VERIF_SEED:-0} $(date +%T)"
-  VERIF_JOBS=${VERIF_JOBS:-10} ./check $p --tier thorough 2>&1 | grep -E "VIOLATION|KNOWN-FINDING|key=|verdict=|INCONCLUSIVE" | cut -c1-400 | head -30
-  echo "    exit=$?"
+  VERIF_JOBS=${VERIF_JOBS:-10} ./check $p --tier thorough > /tmp/all_thorough_$p.out 2>&1
+  rc=$?
+  grep -E "VIOLATION|KNOWN-FINDING|key=|verdict=|INCONCLUSIVE" /tmp/all_thorough_$p.out | cut -c1-400 | head -30
+  rm -f /tmp/all_thorough_$p.out
+  echo "    exit=$rc"
 done
